@@ -193,6 +193,18 @@ CLAIMED = {
     note="Assumed: base64 round trip; C03/C02 contracts for codec and framing. Bounded stand-in: native transfer grid across the 1024/2048 boundaries, three fragmentations, four policies, both directions.",
     technique="contract-based deductive verification (chain lemmas over the real encoder/decoder pairs, router policy corollary, termination variant, call-site obligations; z3/cvc5) + bounded native transfer grid; one known finding",
     design="4 C08"),
+ "C10": dict(
+    category="proof",
+    text="Deductive on the real num_to_str, str_to_num and checks.number: for each enumerated format (printf flags/width/precision combinations and the five sexagesimal precisions) and EVERY value "
+         "(symbolic real and symbolic int) the rendered text is proved to be accepted by the real validator, to denote the value within the format's resolution under the INDI denotation "
+         "sgn*(w + m/60 + s/3600) -- the sign on the whole magnitude --, and to parse back through the real str_to_num within the same tolerance; for every text of the INDI number grammar "
+         "(integer, decimal, 2- and 3-field sexagesimal with ':' ';' or blank separators, optional sign; digit strings of any length) the validator is proved to let it through and str_to_num to return "
+         "exactly the value it denotes, whatever the property's format; the validator is proved to accept nothing outside the grammar.",
+    note="Assumed: CPython number formatting contract (printf language, correct rounding), float()/int() on decimal notation, re engine for the patterns used; floats as mathematical reals. "
+         "Formats are enumerated, values are not. Bounded stand-in: exact-rational native grid.",
+    technique="contract-based deductive verification (symbolic execution of the real AST; regular-language decisions for the validator and group alignment; linear real/integer arithmetic in z3, cvc5 for strings) "
+              "+ bounded native grid against an exact-rational reference reader",
+    design="4 C10"),
  "C07": dict(
     category="proof",
     text="Deductive, modular: Driver.message_from_client(getProperties) is proved to obtain and send exactly one definition per property -- only the named one when a name is given, "
